@@ -83,6 +83,12 @@ pub struct Opts {
     pub mip_gap_bits: Option<u64>,
     /// iteration limit of the tableau simplex (0 = the default 10000)
     pub simplex_limit: i64,
+    /// builder object only: `with_mip_gap` is called with THIS value first, then with `mip_gap_bits` (same object)
+    #[serde(default)]
+    pub first_gap_bits: Option<u64>,
+    /// builder object only: `with_time_limit` is called with THIS value first, then with `time_limit_ns`
+    #[serde(default)]
+    pub first_limit_ns: Option<u64>,
 }
 impl Opts {
     pub fn gap(mut self, g: f64) -> Self { self.mip_gap_bits = Some(g.to_bits()); self }
@@ -462,6 +468,8 @@ fn run(kind: SolverKind, lm: &LinearModel, o: &Opts, pin: bool) -> Outcome {
         SolverKind::BuilderMicrolp => {
             use rooc::Solver;
             let mut m = rooc::Microlp::new();
+            if let Some(g) = o.first_gap_bits { m = m.with_mip_gap(f64::from_bits(g)); }
+            if let Some(ns) = o.first_limit_ns { m = m.with_time_limit(Duration::from_nanos(ns)); }
             if let Some(g) = o.mip_gap_bits { m = m.with_mip_gap(f64::from_bits(g)); }
             if let Some(ns) = o.time_limit_ns { m = m.with_time_limit(Duration::from_nanos(ns)); }
             pack_milp(lm, m.solve(lm))
